@@ -871,6 +871,26 @@ impl World {
                 }
             },
             Op::Keygen { node } => self.op_keygen(node as usize),
+            Op::GarbageBurst { node, count, len, seed } => {
+                for k in 0..count {
+                    self.op_read(node as usize, Src::Garbage { len: len as u32, seed: seed.wrapping_add(k) }, Mutation::None, Buf::Ample, NonceSel::Auto);
+                    if !self.viol.is_empty() && self.viol.len() > 64 {
+                        break;
+                    }
+                }
+            },
+            Op::TrafficBurst { node, count, plen } => {
+                let peer = Self::peer(node as usize);
+                for k in 0..count {
+                    self.op_write(node as usize, plen as u32, k, Buf::Ample, NonceSel::Auto);
+                    if peer < self.nodes.len() {
+                        self.op_read(peer, Src::Next, Mutation::None, Buf::Ample, NonceSel::Auto);
+                    }
+                    if self.viol.len() > 64 {
+                        break;
+                    }
+                }
+            },
             Op::Epilogue => {
                 self.epilogue = true;
             },
@@ -1736,6 +1756,12 @@ impl World {
                     self.stats.probe("early-rejection-of-non-genuine-input");
                 }
                 if whys.is_empty() && must_accept {
+                    // a genuine message that is (wrongly) refused must not leave its payload behind
+                    if let Some(m) = meta {
+                        if model_payload_enc(&m.fields) && leak_check(&out, &m.payload) {
+                            self.flag(&["C19"], "plaintext-in-buffer-after-reject", &format!("hs/{}/{}/genuine-refused", shadow.proto.cipher.name(), backend_name(self.cfg.nodes[i].backend)), &format!("out={outlen} msg={} payload={}", bytes.len(), m.payload.len()));
+                        }
+                    }
                     let mut props = vec!["C02", "C01"];
                     if self.epilogue || prev_err {
                         props.extend_from_slice(&["C07", "C03"]);
@@ -2098,11 +2124,15 @@ impl World {
         node.final_hash = Some(hs.get_handshake_hash().to_vec());
         let site = format!("convert/{}", if stateless { "stateless" } else { "stateful" });
         self.begin_call(&node, 0);
+        // both public entry points: the into_* methods and the TryFrom impls
+        let via_tryfrom = self.call_id % 2 == 0;
         let r = guarded(move || {
-            if stateless {
-                hs.into_stateless_transport_mode().map(|t| St::Sl(Box::new(t)))
-            } else {
-                hs.into_transport_mode().map(|t| St::Tr(Box::new(t)))
+            use std::convert::TryFrom;
+            match (stateless, via_tryfrom) {
+                (true, false) => hs.into_stateless_transport_mode().map(|t| St::Sl(Box::new(t))),
+                (true, true) => StatelessTransportState::try_from(*hs).map(|t| St::Sl(Box::new(t))),
+                (false, false) => hs.into_transport_mode().map(|t| St::Tr(Box::new(t))),
+                (false, true) => TransportState::try_from(*hs).map(|t| St::Tr(Box::new(t))),
             }
         });
         match r {
